@@ -1024,13 +1024,18 @@ def sdkLine (st : St) (toks : List String) (opS implS : String) : Option (St × 
       | .ok sx => match sx.findTopic ti with
         | .error _ => none
         | .ok tx =>
-          let v := tx.parts.filterMap (fun (pid, _) =>
+          -- (only meaningful when members of this group have consumed in this history)
+          let v := if !(st.sdkIds.any (fun e => e.1.2 == gid + 1000000)) then [] else tx.parts.filterMap (fun (pid, _) =>
             let key : PKey := (sx.id, tx.id, pid)
             match st.spec.get key with
             | none => none
             | some sp =>
               if sp.msgs.isEmpty then none else
-              let hi := ((st.sdkIds.find? (·.1 == (key, gid + 1000000))).map (·.2)).bind (·.1)
+              let info := (st.sdkIds.find? (·.1 == (key, gid + 1000000))).map (·.2)
+              let hi := info.bind (·.1)
+              -- a group that commits on polling acknowledges what it fetched: what a dropped member had
+              -- fetched and not yet yielded is skipped by design (at-most-once), so completeness is not required
+              if (info.map (·.2)).getD false then none else
               if hi == some sp.cur then none else
                 some s!"SPEC-VIOL {st.line} class=group-incomplete partition={pid} last-offset={sp.cur} yielded-up-to={repr hi}")
           some (viol (cov st "op:x-group-complete") v)
@@ -1225,6 +1230,16 @@ def stepLine (st : St) (raw : String) : St × List String :=
       else (st, msgs0)
     else (st, msgs0)
   | some aop0 =>
+    -- HTTP sessions are stateless: a login does not first log out whoever the connection was (over TCP that
+    -- step fails when that user has been deleted meanwhile); it just obtains a new token
+    let st := if st.httpConns.contains ((toks.getD 1 "").toNat?.getD 1000000) &&
+                 (toks.headD "" == "login" || toks.headD "" == "login-pat") then
+        (let c := (toks.getD 1 "").toNat?.getD 1000000
+         -- (a failed login keeps the token the client had: only the TCP-only failure is taken out)
+         if st.asys.userOf c ≠ 0 ∧ (find? st.asys.users (st.asys.userOf c)).isNone then
+           { st with asys := { st.asys with sessions := erase st.asys.sessions c } }
+         else st)
+      else st
     -- no-wait confirmation with batches still on their way to the log: a poll returns a prefix of the
     -- specification's answer; an auto-committing poll stores the offset of the last message it returned
     let relaxedPoll := st.relaxed && toks.headD "" == "poll"
